@@ -605,3 +605,33 @@ Proof.
   rewrite (psm_parts_flat_nil (summary_components e)) by (intros s; reflexivity).
   unfold EntityGen.entity_parts. rewrite !app_nil_r. reflexivity.
 Qed.
+
+(* the literal property names of acceptState / acceptEvent / acceptPublishTopic, for EVERY declaration: the JSON
+   names of the State and Event objects and of the publish message are exactly the literals those functions
+   write (as sets: the code lists `status` first) *)
+Definition publish_message_fields (e : entity) : list bytes :=
+  match publish_components e with CMsg _ m :: _ => map f_json (m_fields m) | _ => [] end.
+Theorem property_names_universal : forall e fl,
+  same_names (map f_json (m_fields (state_msg e fl))) (lits_of "acceptState") = true
+  /\ same_names (map f_json (m_fields (event_msg e))) (lits_of "acceptEvent") = true
+  /\ same_names (publish_message_fields e) (lits_of "acceptPublishTopic") = true.
+Proof. intros e fl. repeat split; vm_compute; reflexivity. Qed.
+
+(* Sprintf formats of acceptQuery / acceptPublishTopic applied to the entity's name, for EVERY declaration *)
+Definition last_svc (cs : list component) : option osvc :=
+  match last cs (CEnum [] []) with CSvc _ s => Some s | _ => None end.
+Theorem formats_universal : forall e,
+  fmt_of "acceptQuery" "%sGet" && fmt_of "acceptQuery" "%sList" && fmt_of "acceptQuery" "%sEvents"
+    && fmt_of "acceptQuery" "%sQuery" && fmt_of "acceptPublishTopic" "%sEvent" && fmt_of "acceptPublishTopic" "%sPublish" = true
+  /\ option_map (fun s => (sv_name s, map mt_name (sv_methods s))) (last_svc (query_components e))
+     = Some (sprintf1 (list_ascii_of_string "%sQuery") (query_prefix e) ++ bs "Service",
+             map (fun f => sprintf1 (list_ascii_of_string f) (query_prefix e)) ["%sGet"; "%sList"; "%sEvents"])
+  /\ option_map (fun s => (sv_name s, map mt_name (sv_methods s))) (last_svc (publish_components e))
+     = Some (to_camel (sprintf1 (list_ascii_of_string "%sPublish") (camel_name e)) ++ bs "Topic",
+             [sprintf1 (list_ascii_of_string "%sEvent") (camel_name e)]).
+Proof.
+  intros e. split; [vm_compute; reflexivity|]. split.
+  - unfold query_components, service_components, last_svc. cbn [map flat_map fst snd method_components app last sv_name sv_methods mt_name option_map sprintf1 list_ascii_of_string].
+    repeat (rewrite <- app_assoc). cbn. reflexivity.
+  - unfold publish_components, topic_components, last_svc. cbn. reflexivity.
+Qed.
